@@ -71,7 +71,7 @@ func gen(t *rapid.T) Case {
 	ox := rapid.SampledFrom([]float64{0, 0, 1000, -50}).Draw(t, "ox")
 	A := vkit.GenPolygonal(t, ka, ox, ox/2, R, snap)
 	c.A = A.G
-	c.Config = rapid.SampledFrom([]string{"overlap", "overlap", "overlap", "nested", "inhole", "diagonal", "bboxdisjoint", "far", "sliver"}).Draw(t, "config")
+	c.Config = rapid.SampledFrom([]string{"overlap", "overlap", "overlap", "nested", "inhole", "diagonal", "bboxdisjoint", "far", "sliver", "sliver"}).Draw(t, "config")
 	if c.Config == "sliver" {
 		// a long thin hole (a canal) through the middle of A, and a box (or small polygon) laid across it: the corners of B
 		// are inside A, no vertex of A is inside B, yet A's boundary passes through B
@@ -95,7 +95,13 @@ func gen(t *rapid.T) Case {
 			kb = "Bounds"
 		}
 		hb := rin * rapid.Float64Range(0.2, 0.45).Draw(t, "sliverbox")
-		c.B = vkit.GenPolygonal(t, kb, ox+rin*rapid.Float64Range(-0.1, 0.1).Draw(t, "sdx"), ox/2+rin*rapid.Float64Range(-0.1, 0.1).Draw(t, "sdy"), hb, snap).G
+		// B is centred near the canal, or (two thirds of the cases) moved sideways from it by up to 1.3 times its own half
+		// size, so that the canal cuts across one corner region of B only (or just misses it)
+		side := 0.0
+		if rapid.IntRange(0, 2).Draw(t, "slivercorner") > 0 {
+			side = hb * rapid.Float64Range(-1.3, 1.3).Draw(t, "sliverside")
+		}
+		c.B = vkit.GenPolygonal(t, kb, ox+rin*rapid.Float64Range(-0.1, 0.1).Draw(t, "sdx")-side*uy, ox/2+rin*rapid.Float64Range(-0.1, 0.1).Draw(t, "sdy")+side*ux, hb, snap).G
 		if rapid.Bool().Draw(t, "sliverswap") { // the box as receiver, the polygon as argument
 			c.A, c.B = c.B, c.A
 		}
